@@ -141,6 +141,17 @@ def _t_oneof(n):
     return {n[0]: {"oneOf": [REF(n[1]), REF(n[2])]}, n[1]: obj({"u": REF(n[0]), "x": STR}), n[2]: obj({"y": INT})}
 
 
+def _t_wrapped_enum(n):
+    # `allOf: [{$ref}]` + annotations: the OpenAPI 3.0 idiom for a nullable / described reference; here to an enum
+    return {n[0]: obj({"e": {"allOf": [REF(n[1])], "nullable": True}, "d": {"allOf": [REF(n[1])], "description": "described"}, "v": STR}, ["v"]),
+            n[1]: {"type": "string", "enum": ["a", "b"]}}
+
+
+def _t_wrapped_alias(n):
+    # ... to a primitive alias and (through it) an array alias
+    return {n[0]: obj({"s": {"allOf": [REF(n[1])], "nullable": True}, "v": INT}), n[1]: {"type": "string", "format": "date-time"}}
+
+
 def _t_diamond(n):
     return {n[0]: obj({"l": REF(n[1]), "r": REF(n[2])}), n[1]: obj({"b": REF(n[0]), "p": STR}), n[2]: obj({"b": REF(n[1]), "q": STR})}
 
@@ -158,6 +169,8 @@ TEMPLATES = {
     "self_additional": (2, _t_self_additional, [{"label": "string"}, {"root": ("ref", 0), "v": "integer"}], [{"label"}, set()]),
     "null_property": (2, _t_null_property, [{"note": None, "x": "string"}, {"h": ("ref", 0), "y": "integer"}], [set(), set()]),
     "oneof": (3, _t_oneof, [None, {"u": ("ref", 0), "x": "string"}, {"y": "integer"}], [None, set(), set()]),
+    "wrapped_enum": (2, _t_wrapped_enum, [{"e": ("ref", 1), "d": ("ref", 1), "v": "string"}, "value"], [{"v"}, set()]),
+    "wrapped_alias": (2, _t_wrapped_alias, [{"s": ("ref", 1), "v": "integer"}, "value"], [set(), set()]),
     "diamond": (3, _t_diamond, [{"l": ("ref", 1), "r": ("ref", 2)}, {"b": ("ref", 0), "p": "string"}, {"b": ("ref", 1), "q": "string"}], [set(), set(), set()]),
 }
 
@@ -217,6 +230,7 @@ def k_parse(P, template, names, order):
 
 
 NAMING_TEMPLATES = ("oneof", "anyof_of_oneof", "allof")
+LIGHT_TEMPLATES = ("wrapped_enum", "wrapped_alias")  # no cycle in them: one name length is enough for the quick tier
 
 
 def _assign_names(P, schemas):
@@ -371,6 +385,8 @@ class Fidelity(Obligation):
                 got, want, rivals = more[0]
                 if got is None or got[0] is None or got[1] is None or (rivals == 1 and not _eqs(got[0], want)):
                     return False, "schema #%d is emitted as class/module %r although nothing else in the document is named like it (expected class %r)" % (i, _sn(got), _sn(want))
+            if want_props[i] == "value":
+                continue  # an enum / primitive alias: registered once, nothing to say about properties
             if want_props[i] is None or isinstance(want_props[i], tuple):
                 if shape != "union":
                     return False, "schema #%d (a oneOf/anyOf union) came out as %r" % (i, shape)
@@ -422,6 +438,10 @@ def specs(tier, factory="mk"):
     q = tier == "quick"
     for t, (n, _, _, _) in TEMPLATES.items():
         out.append((MOD, factory, (t, (1,) * n)))
+        if t in LIGHT_TEMPLATES:
+            if not q:
+                out.append((MOD, factory, (t, (2, 1))))
+            continue
         if n == 2:
             out.append((MOD, factory, (t, (2, 1))))
             out.append((MOD, factory, (t, (1, 2))))
